@@ -4,7 +4,9 @@
 // capacity (hook H1). Everything observable is recorded in order:
 //   ["r", free, n]            Read::read was offered `free` bytes, returned n
 //   ["rfail", free]           ... returned an error
-//   ["w", [bytes]]            one write of a non-match chunk
+//   ["w", [bytes]]            one Write::write call, everything accepted
+//   ["ws", [bytes], n]        ... only the first n bytes accepted (a short write)
+//   ["wintr", [bytes]]        ... failed with ErrorKind::Interrupted (write_all retries)
 //   ["wfail", [bytes]]        ... that the writer refused
 //   ["m", pid, s, e, [bytes]] closure call / ["mfail", ...] closure error
 //   ["y", pid, s, e]          StreamFindIter yielded a match, ["yerr"] an error
@@ -28,16 +30,26 @@ struct ScriptedReader {
     script: Vec<usize>,
     calls: usize,
     fail_at: Option<usize>,
+    fail_kind: usize,
     log: Log,
 }
+
+/// the kinds of failure a reader / writer / closure is made to report
+pub const KINDS: [io::ErrorKind; 5] = [
+    io::ErrorKind::Other,
+    io::ErrorKind::Interrupted,
+    io::ErrorKind::WouldBlock,
+    io::ErrorKind::UnexpectedEof,
+    io::ErrorKind::BrokenPipe,
+];
 
 impl io::Read for ScriptedReader {
     fn read(&mut self, buf: &mut [u8]) -> io::Result<usize> {
         let k = self.calls;
         self.calls += 1;
         if self.fail_at == Some(k) {
-            self.log.borrow_mut().push(json!(["rfail", buf.len()]));
-            return Err(io::Error::new(io::ErrorKind::Other, "injected read failure"));
+            self.log.borrow_mut().push(json!(["rfail", buf.len(), self.fail_kind]));
+            return Err(io::Error::new(KINDS[self.fail_kind % KINDS.len()], "injected read failure"));
         }
         let want = if self.exact {
             *self.script.get(k).unwrap_or(&0)
@@ -57,6 +69,10 @@ impl io::Read for ScriptedReader {
 struct RecWriter {
     calls: usize,
     fail_at: Option<usize>,
+    fail_kind: usize,
+    /// how many bytes each successful call accepts at most (cyclic; empty = everything)
+    accept: Vec<usize>,
+    accepted_calls: usize,
     log: Log,
     out: Vec<u8>,
 }
@@ -66,12 +82,26 @@ impl io::Write for RecWriter {
         let k = self.calls;
         self.calls += 1;
         if self.fail_at == Some(k) {
-            self.log.borrow_mut().push(json!(["wfail", buf]));
-            return Err(io::Error::new(io::ErrorKind::Other, "injected write failure"));
+            let kind = KINDS[self.fail_kind % KINDS.len()];
+            // io::Write::write_all retries a write that was interrupted
+            let tag = if kind == io::ErrorKind::Interrupted { "wintr" } else { "wfail" };
+            self.log.borrow_mut().push(json!([tag, buf]));
+            return Err(io::Error::new(kind, "injected write failure"));
         }
-        self.log.borrow_mut().push(json!(["w", buf]));
-        self.out.extend_from_slice(buf);
-        Ok(buf.len())
+        let n = if self.accept.is_empty() || buf.is_empty() {
+            buf.len()
+        } else {
+            let a = self.accept[self.accepted_calls % self.accept.len()].max(1);
+            self.accepted_calls += 1;
+            a.min(buf.len())
+        };
+        if n == buf.len() {
+            self.log.borrow_mut().push(json!(["w", buf]));
+        } else {
+            self.log.borrow_mut().push(json!(["ws", buf, n]));
+        }
+        self.out.extend_from_slice(&buf[..n]);
+        Ok(n)
     }
     fn flush(&mut self) -> io::Result<()> {
         Ok(())
@@ -85,12 +115,16 @@ pub struct Plan {
     pub script: Vec<usize>,
     pub rfail: Option<usize>,
     pub wfail: Option<usize>, // index among write+closure calls
+    pub rkind: usize,         // index into KINDS for the read failure
+    pub wkind: usize,         // ... for the write / closure failure
+    pub accept: Vec<usize>,   // the writer's short-write schedule (empty = accepts everything)
 }
 
 fn plan_json(p: &Plan) -> Value {
     json!({"stream": p.stream, "cap": p.cap, "script": p.script,
            "rfail": p.rfail.map(|x| x as i64).unwrap_or(-1),
-           "wfail": p.wfail.map(|x| x as i64).unwrap_or(-1)})
+           "wfail": p.wfail.map(|x| x as i64).unwrap_or(-1),
+           "rkind": p.rkind, "wkind": p.wkind, "accept": p.accept})
 }
 
 /// try_stream_replace_all_with: closure calls and writes share one counter
@@ -105,6 +139,7 @@ pub fn run_replace(ac: &AhoCorasick, p: &Plan) -> Value {
         exact: p.exact,
         calls: 0,
         fail_at: p.rfail,
+        fail_kind: p.rkind,
         log: log.clone(),
     };
     let emitted = Rc::new(RefCell::new(0usize));
@@ -127,19 +162,20 @@ pub fn run_replace(ac: &AhoCorasick, p: &Plan) -> Value {
         }
     }
     let mut w = W {
-        inner: RecWriter { calls: 0, fail_at: None, log: log.clone(), out: vec![] },
+        inner: RecWriter { calls: 0, fail_at: None, fail_kind: p.wkind, accept: p.accept.clone(), accepted_calls: 0, log: log.clone(), out: vec![] },
         emitted: emitted.clone(),
         wfail: p.wfail,
     };
     let l2 = log.clone();
     let wfail = p.wfail;
+    let wkind = p.wkind;
     let r = guarded(|| {
         ac.try_stream_replace_all_with(rdr, &mut w, |m, bytes, _w| {
             let k = *em2.borrow();
             *em2.borrow_mut() += 1;
             if wfail == Some(k) {
                 l2.borrow_mut().push(json!(["mfail", m.pattern().as_usize(), m.start(), m.end(), bytes]));
-                return Err(io::Error::new(io::ErrorKind::Other, "injected closure failure"));
+                return Err(io::Error::new(KINDS[wkind % KINDS.len()], "injected closure failure"));
             }
             l2.borrow_mut().push(json!(["m", m.pattern().as_usize(), m.start(), m.end(), bytes]));
             Ok(())
@@ -172,6 +208,7 @@ pub fn run_replace_table(ac: &AhoCorasick, p: &Plan, rep: &[Vec<u8>]) -> Value {
         exact: p.exact,
         calls: 0,
         fail_at: p.rfail,
+        fail_kind: p.rkind,
         log: log.clone(),
     };
     let mut out: Vec<u8> = vec![];
@@ -203,9 +240,10 @@ pub fn run_replace_table_ops(ac: &AhoCorasick, p: &Plan, rep: &[Vec<u8>]) -> Val
         exact: p.exact,
         calls: 0,
         fail_at: p.rfail,
+        fail_kind: p.rkind,
         log: log.clone(),
     };
-    let mut w = RecWriter { calls: 0, fail_at: p.wfail, log: log.clone(), out: vec![] };
+    let mut w = RecWriter { calls: 0, fail_at: p.wfail, fail_kind: p.wkind, accept: p.accept.clone(), accepted_calls: 0, log: log.clone(), out: vec![] };
     let r = guarded(|| ac.try_stream_replace_all(rdr, &mut w, rep));
     aho_corasick::verif::set_buffer_capacity(None);
     let end = match r {
@@ -234,6 +272,7 @@ pub fn run_find(ac: &AhoCorasick, p: &Plan, repoll: bool) -> Value {
         exact: p.exact,
         calls: 0,
         fail_at: p.rfail,
+        fail_kind: p.rkind,
         log: log.clone(),
     };
     let l2 = log.clone();
@@ -311,6 +350,10 @@ pub fn run(out_prefix: &str, shards: usize, family: &str, seed: u64, scale: usiz
                 .collect();
             let streams = gen::all_hays(b"ab", maxstream);
             let scripts = all_scripts(sizes, 2);
+            // the writer's short-write schedule and the kind of the injected failure rotate
+            // from run to run (a product with everything else would not add behaviour)
+            let accepts: [&[usize]; 4] = [&[], &[1], &[2, 1], &[]];
+            let mut nrun = 0usize;
             for (pi, pats) in pats_all.iter().enumerate() {
                 let repr = ["top-nc", "top-c", "top-dfa", "top-auto"][pi % 4];
                 let mut c = Ctx::new(pats, "std", repr);
@@ -322,10 +365,12 @@ pub fn run(out_prefix: &str, shards: usize, family: &str, seed: u64, scale: usiz
                 for stream in &streams {
                     for x in 1..=3usize {
                         for script in &scripts {
-                            let base = Plan { exact: false, stream: stream.clone(), cap: min + x, script: script.clone(), rfail: None, wfail: None };
+                            nrun += 1;
+                            let base = Plan { exact: false, stream: stream.clone(), cap: min + x, script: script.clone(), rfail: None, wfail: None,
+                                rkind: 0, wkind: 0, accept: accepts[nrun % 4].to_vec() };
                             let mut v = run_replace(&ac, &base);
                             let nreads = v["ops"].as_array().unwrap().iter().filter(|o| o[0] == "r").count();
-                            let nemit = v["ops"].as_array().unwrap().iter().filter(|o| o[0] == "w" || o[0] == "m").count();
+                            let nemit = v["ops"].as_array().unwrap().iter().filter(|o| o[0] == "w" || o[0] == "ws" || o[0] == "m").count();
                             v["c"] = json!(cl);
                             out.put(shard, &v);
                             st.events += 1;
@@ -336,13 +381,13 @@ pub fn run(out_prefix: &str, shards: usize, family: &str, seed: u64, scale: usiz
                             // the table variant (plain writes for chunks and replacements)
                             let rep: Vec<Vec<u8>> = (0..pats.len()).map(|k| [&b"<>"[..], &b""[..], &b"Z"[..]][(k + stream.len()) % 3].to_vec()).collect();
                             let mut tb = run_replace_table_ops(&ac, &base, &rep);
-                            let nwrites = tb["ops"].as_array().unwrap().iter().filter(|o| o[0] == "w").count();
+                            let nwrites = tb["ops"].as_array().unwrap().iter().filter(|o| o[0] == "w" || o[0] == "ws").count();
                             tb["c"] = json!(cl);
                             out.put(shard, &tb);
                             st.events += 1;
                             if faults {
                                 for k in 0..nwrites {
-                                    let p = Plan { wfail: Some(k), ..clone_plan(&base) };
+                                    let p = Plan { wfail: Some(k), wkind: (nrun + k) % KINDS.len(), ..clone_plan(&base) };
                                     let mut v = run_replace_table_ops(&ac, &p, &rep);
                                     v["c"] = json!(cl);
                                     out.put(shard, &v);
@@ -351,7 +396,7 @@ pub fn run(out_prefix: &str, shards: usize, family: &str, seed: u64, scale: usiz
                             }
                             if faults {
                                 for k in 0..nreads {
-                                    let p = Plan { rfail: Some(k), ..clone_plan(&base) };
+                                    let p = Plan { rfail: Some(k), rkind: (nrun + k) % KINDS.len(), ..clone_plan(&base) };
                                     let mut v = run_replace(&ac, &p);
                                     v["c"] = json!(cl);
                                     out.put(shard, &v);
@@ -361,7 +406,7 @@ pub fn run(out_prefix: &str, shards: usize, family: &str, seed: u64, scale: usiz
                                     st.events += 2;
                                 }
                                 for k in 0..nemit {
-                                    let p = Plan { wfail: Some(k), ..clone_plan(&base) };
+                                    let p = Plan { wfail: Some(k), wkind: (nrun + k + 2) % KINDS.len(), ..clone_plan(&base) };
                                     let mut v = run_replace(&ac, &p);
                                     v["c"] = json!(cl);
                                     out.put(shard, &v);
@@ -396,7 +441,7 @@ pub fn run(out_prefix: &str, shards: usize, family: &str, seed: u64, scale: usiz
                     }
                 }
                 let script = if bi % 2 == 0 { vec![] } else { vec![40_000, 7, 30_000, 1] };
-                let base = Plan { exact: false, stream, cap: 0, script, rfail: None, wfail: None };
+                let base = Plan { exact: false, stream, cap: 0, script, rfail: None, wfail: None, rkind: 0, wkind: 0, accept: vec![] };
                 let rep: Vec<Vec<u8>> = vec![b"<N>".to_vec(), b"<n>".to_vec(), b"".to_vec(), b"<X>".to_vec()];
                 // too long for the TLA+ replacement oracle: C08 is stated relative to the
                 // in-memory replace-all, so both outputs are recorded and TLC compares them
@@ -433,10 +478,15 @@ pub fn run(out_prefix: &str, shards: usize, family: &str, seed: u64, scale: usiz
                     let slen = rg.gen_range(1..=4);
                     let maxsz = if cap == 0 { 70 } else { cap + 2 };
                     let script: Vec<usize> = (0..slen).map(|_| rg.gen_range(1..=maxsz)).collect();
-                    let base = Plan { exact: false, stream, cap, script, rfail: None, wfail: None };
+                    let accept: Vec<usize> = match rg.gen_range(0..3) {
+                        0 => vec![],
+                        1 => vec![rg.gen_range(1..=3)],
+                        _ => (0..rg.gen_range(1..=3)).map(|_| rg.gen_range(1..=16)).collect(),
+                    };
+                    let base = Plan { exact: false, stream, cap, script, rfail: None, wfail: None, rkind: 0, wkind: 0, accept };
                     let mut v = run_replace(&ac, &base);
                     let nreads = v["ops"].as_array().unwrap().iter().filter(|o| o[0] == "r").count();
-                    let nemit = v["ops"].as_array().unwrap().iter().filter(|o| o[0] == "w" || o[0] == "m").count();
+                    let nemit = v["ops"].as_array().unwrap().iter().filter(|o| o[0] == "w" || o[0] == "ws" || o[0] == "m").count();
                     v["c"] = json!(cl);
                     out.put(shard, &v);
                     let mut f = run_find(&ac, &base, true);
@@ -451,7 +501,7 @@ pub fn run(out_prefix: &str, shards: usize, family: &str, seed: u64, scale: usiz
                     st.events += 3;
                     if faults {
                         if nreads > 0 {
-                            let p = Plan { rfail: Some(rg.gen_range(0..nreads)), ..clone_plan(&base) };
+                            let p = Plan { rfail: Some(rg.gen_range(0..nreads)), rkind: rg.gen_range(0..KINDS.len()), ..clone_plan(&base) };
                             let mut v = run_replace(&ac, &p);
                             v["c"] = json!(cl);
                             out.put(shard, &v);
@@ -461,12 +511,12 @@ pub fn run(out_prefix: &str, shards: usize, family: &str, seed: u64, scale: usiz
                             st.events += 2;
                         }
                         if nemit > 0 {
-                            let p = Plan { wfail: Some(rg.gen_range(0..nemit)), ..clone_plan(&base) };
+                            let p = Plan { wfail: Some(rg.gen_range(0..nemit)), wkind: rg.gen_range(0..KINDS.len()), ..clone_plan(&base) };
                             let mut v = run_replace(&ac, &p);
                             v["c"] = json!(cl);
                             out.put(shard, &v);
                             st.events += 1;
-                            let p2 = Plan { wfail: Some(rg.gen_range(0..nemit)), ..clone_plan(&base) };
+                            let p2 = Plan { wfail: Some(rg.gen_range(0..nemit)), wkind: rg.gen_range(0..KINDS.len()), ..clone_plan(&base) };
                             let mut v2 = run_replace_table_ops(&ac, &p2, &rep);
                             v2["c"] = json!(cl);
                             out.put(shard, &v2);
@@ -509,6 +559,9 @@ pub fn run(out_prefix: &str, shards: usize, family: &str, seed: u64, scale: usiz
                     script: serde_json::from_value(v["reads"].clone()).unwrap(),
                     rfail: if rf < 0 { None } else { Some(rf as usize) },
                     wfail: if wf < 0 { None } else { Some(wf as usize) },
+                    rkind: li % KINDS.len(),
+                    wkind: 0, // the generated behaviours end at the failure (no write_all retry)
+                    accept: vec![],
                 };
                 let mut r = run_replace(ac, &p);
                 r["c"] = json!(cl);
@@ -531,5 +584,6 @@ pub fn run(out_prefix: &str, shards: usize, family: &str, seed: u64, scale: usiz
 }
 
 fn clone_plan(p: &Plan) -> Plan {
-    Plan { exact: p.exact, stream: p.stream.clone(), cap: p.cap, script: p.script.clone(), rfail: p.rfail, wfail: p.wfail }
+    Plan { exact: p.exact, stream: p.stream.clone(), cap: p.cap, script: p.script.clone(), rfail: p.rfail, wfail: p.wfail,
+           rkind: p.rkind, wkind: p.wkind, accept: p.accept.clone() }
 }
